@@ -186,7 +186,33 @@ var builtinTypes = map[string]bool{"int": true, "int32": true, "int64": true, "u
 	"bool": true, "string": true, "float64": true, "byte": true, "Iterator": true, "Message": true, "error": true}
 
 // target name of an assigned lvalue, "" if it is not a field of a public / generated object
+// elemOf: a value written into a local of the element type (tag := osm.Tag{}; tag.Key = ...; tags =
+// append(tags, tag)) reaches the same place as one written through the slice (tags[i] = osm.Tag{Key: ...}):
+// targets are named by the slice type.
+var elemOf = map[string]string{"Tag": "Tags", "WayNode": "WayNodes", "Member": "Members"}
+
+func isSliceType(t string) bool {
+	for _, s := range elemOf {
+		if s == t {
+			return true
+		}
+	}
+	return false
+}
+
 func (fi *fileInfo) target(e ast.Expr, recv string, vt map[string]string) string {
+	t := fi.target0(e, recv, vt)
+	if i := strings.Index(t, "."); i > 0 {
+		if s, ok := elemOf[t[:i]]; ok {
+			return s + t[i:]
+		}
+	} else if s, ok := elemOf[t]; ok {
+		return s
+	}
+	return t
+}
+
+func (fi *fileInfo) target0(e ast.Expr, recv string, vt map[string]string) string {
 	p := lpath(e)
 	if len(p) == 0 {
 		return ""
@@ -335,8 +361,30 @@ func (fi *fileInfo) taintTargets(scope ast.Node, recvText string, recv string, v
 					if !tainted {
 						return true
 					}
-					for _, l := range x.Lhs {
+					for li, l := range x.Lhs {
 						if id, ok := l.(*ast.Ident); ok {
+							// xs = append(xs, T{f: v}) on a local slice is xs[i] = T{f: v}: the value reaches
+							// field f of an element, the slice variable itself carries nothing further
+							if li < len(x.Rhs) && isSliceType(vt[id.Name]) {
+								if c, ok := x.Rhs[li].(*ast.CallExpr); ok && len(c.Args) >= 2 {
+									if f, ok := c.Fun.(*ast.Ident); ok && f.Name == "append" && render(c.Args[0]) == id.Name {
+										done := false
+										for _, a := range c.Args[1:] {
+											if cl, ok := a.(*ast.CompositeLit); ok {
+												for _, el := range cl.Elts {
+													if kv, ok := el.(*ast.KeyValueExpr); ok && mentions(kv.Value, taint) {
+														targets = addUniq(targets, vt[id.Name]+"."+render(kv.Key))
+														done = true
+													}
+												}
+											}
+										}
+										if done {
+											continue
+										}
+									}
+								}
+							}
 							if id.Name != "err" && id.Name != "_" && !taint[id.Name] {
 								taint[id.Name] = true
 								changed = true
@@ -1207,6 +1255,7 @@ func main() {
 	// ---------- decode_data.go ----------
 	file := parseFile(filepath.Join(repo, "osmpbf", "decode_data.go"))
 	helpers := inlineFile(file) // normal form: helpers and closures inlined into their call sites
+	guardToSwitch(file)         // ... and one-armed negative guards written as switches
 	if os.Getenv("PBFCODE_DUMP") != "" {
 		printer.Fprint(os.Stderr, fset, file)
 	}
@@ -1435,9 +1484,19 @@ func main() {
 		for fname, fd := range fi.funcs { // per function of the normal form (helpers live inlined in their callers)
 			fname := fname
 			ranged := map[ast.Expr]bool{} // a slice expression that is only iterated over (for ... range x[i:]) writes nothing
+			madeHere := map[string]bool{} // locals defined by x := make(...) in this function: growing them is part of making them
 			ast.Inspect(fd, func(n ast.Node) bool {
 				if rs, ok := n.(*ast.RangeStmt); ok {
 					ranged[rs.X] = true
+				}
+				if as, ok := n.(*ast.AssignStmt); ok && as.Tok == token.DEFINE && len(as.Lhs) == 1 && len(as.Rhs) == 1 {
+					if c, ok := as.Rhs[0].(*ast.CallExpr); ok {
+						if id, ok := c.Fun.(*ast.Ident); ok && id.Name == "make" {
+							if l, ok := as.Lhs[0].(*ast.Ident); ok {
+								madeHere[l.Name] = true
+							}
+						}
+					}
 				}
 				return true
 			})
@@ -1446,13 +1505,12 @@ func main() {
 				case *ast.CallExpr:
 					if id, ok := x.Fun.(*ast.Ident); ok && len(x.Args) > 0 {
 						switch id.Name {
-						case "make":
-							shape := "len"
-							if len(x.Args) == 3 {
-								shape = "len+cap"
-							}
-							ops[fname+": make "+render(x.Args[0])+" "+shape] = true
+						case "make": // make(T, n) + index writes and make(T, 0, n) + append build the same fresh slice
+							ops[fname+": make "+render(x.Args[0])] = true
 						case "append":
+							if l, ok := x.Args[0].(*ast.Ident); ok && madeHere[l.Name] {
+								break // still building the slice it made
+							}
 							ops[fname+": append "+target(x.Args[0])] = true
 						}
 					}
@@ -1506,11 +1564,50 @@ func main() {
 		fail("decodeOSMHeader: no HeaderBlock variable")
 	}
 	// source of a value expression: the selector chains rooted at hb (Get prefix of getters removed)
+	// locals that merely name a part of the header block (ts := hb.X; bbox := hb.Bbox; req := hb.GetY(),
+	// also in the init clause of an if): alias -> path below hb
+	alias := map[string]string{}
+	hbPath := func(e ast.Expr) (string, bool) {
+		switch x := e.(type) {
+		case *ast.CallExpr:
+			if s, ok := x.Fun.(*ast.SelectorExpr); ok && len(x.Args) == 0 {
+				if p := lpath(s); p != nil && p[0] == hb && len(p) > 1 {
+					p[len(p)-1] = strings.TrimPrefix(p[len(p)-1], "Get")
+					return strings.Join(p[1:], "."), true
+				}
+			}
+		case *ast.SelectorExpr:
+			if p := lpath(x); p != nil && len(p) > 1 {
+				if p[0] == hb {
+					return strings.Join(p[1:], "."), true
+				}
+				if a, ok := alias[p[0]]; ok {
+					return a + "." + strings.Join(p[1:], "."), true
+				}
+			}
+		}
+		return "", false
+	}
+	ast.Inspect(hdr.Body, func(n ast.Node) bool {
+		if as, ok := n.(*ast.AssignStmt); ok && as.Tok == token.DEFINE && len(as.Lhs) == 1 && len(as.Rhs) == 1 {
+			if id, ok := as.Lhs[0].(*ast.Ident); ok {
+				if p, ok := hbPath(as.Rhs[0]); ok {
+					alias[id.Name] = p
+				}
+			}
+		}
+		return true
+	})
 	sources := func(e ast.Expr) []string {
 		var out []string
 		ast.Inspect(e, func(n ast.Node) bool {
 			var p []string
 			switch x := n.(type) {
+			case *ast.Ident:
+				if a, ok := alias[x.Name]; ok {
+					out = addUniq(out, a)
+				}
+				return true
 			case *ast.CallExpr:
 				if s, ok := x.Fun.(*ast.SelectorExpr); ok {
 					p = lpath(s)
@@ -1526,6 +1623,12 @@ func main() {
 				if p != nil && p[0] == hb && len(p) > 1 {
 					out = addUniq(out, strings.Join(p[1:], "."))
 					return false
+				}
+				if p != nil && len(p) > 1 {
+					if a, ok := alias[p[0]]; ok {
+						out = addUniq(out, a+"."+strings.Join(p[1:], "."))
+						return false
+					}
 				}
 			}
 			return true
